@@ -761,6 +761,7 @@ package smtp
 
 //@ contract (*Client).cmd(c, expectCode, format, args) (code, msg, err)
 //@   prop C15
+//@   ensures @C16 no-deadline-of-the-command-stays-armed-when-it-returns: !c.conn.armed
 //@   requires c != nil && c.conn != nil && c.text != nil
 //@   requires @C15 command-is-one-line: noCRLF(fmtline(format, args))
 //@   requires @C14,C15,C16 a-prebuilt-line-is-not-used-as-a-format: len(args) == 0 ==> noPercent(format)
@@ -950,6 +951,7 @@ package smtp
 //@     invariant 0 <= expectedResponses && expectedResponses <= len(d.c.rcpts) && d.c.rcpts == old(d.c.rcpts) && d.c.lmtp && d.closed && !old(d.closed)
 //@     invariant @C18 replies-so-far: d.c.text.Reader.resps == old(d.c.text.Reader.resps) + len(d.c.rcpts) - expectedResponses
 //@     invariant d.WriteCloser.closes == old(d.WriteCloser.closes) + 1
+//@     backedge @C18 a-refusal-once-remembered-is-not-forgotten: head(refused) != nil ==> refused == head(refused)
 //@     backedge @C18 refusal-remembered-when-there-is-no-callback: d.statusCb == nil && istype(resultof("(*Client).readResponse", 2, 3), "*SMTPError") ==> refused != nil
 
 //@ contract (*Client).SendMail(c, from, to, r) (err)
